@@ -73,9 +73,23 @@ func (l c13layout) String() string {
 	return fmt.Sprintf("wrap=%d blank=%d comment=%d crlf=%v nofinal=%v gz=%v build=%v", l.wrap, l.blank, l.comment, l.crlf, l.noFinal, l.gz, l.useBuild)
 }
 
+var c13prevOut []byte
+var c13prevCopy string
+
+// c13stable: text returned by an earlier Build must not change when Build is called again.
+func c13stable(r *mc.Recorder) {
+	if c13prevOut != nil && string(c13prevOut) != c13prevCopy {
+		r.Failf("written-text-stable", "text of an earlier fasta.Build re-read after a later Build", nil, q(c13prevCopy), q(string(c13prevOut)))
+	}
+}
+
 func c13write(recs []fasta.Fasta, l c13layout) []byte {
 	if l.useBuild {
-		return fasta.Build(recs)
+		out := fasta.Build(recs)
+		if len(out) < 4096 {
+			c13prevOut, c13prevCopy = out, string(out)
+		}
+		return out
 	}
 	nl := "\n"
 	if l.crlf {
@@ -227,6 +241,7 @@ func c13inputUnits(tier string) []mc.Unit {
 						l.noFinal = c.Dev("nofinal", 2) == 1
 					}
 					l.gz = c.Dev("gz", 2) == 1
+					c13stable(r)
 					text := c13write(list, l)
 					var cuts []int
 					if ch := c.Dev("chunk", 3); ch == 1 {
